@@ -42,6 +42,9 @@ Record case := mkCase {
   c_ops : list op;                              (* what was appended (deep copies taken before) *)
   c_steps : list obs_step;                      (* mode 0 *)
   c_chunks : list (list (Z * hist));            (* mode 0: every chunk decoded, in order *)
+  c_reenc : list Z;                             (* mode 0: per chunk, re-encoding it the way compaction does
+                                                   (iterate, AppendHistogram(..., appendOnly=true)):
+                                                   0 = error, 1 = ok and decodes to the same samples, 2 = ok but different *)
   c_reads : list (list (Z * hist));             (* mode 1: the series as read through each path *)
   c_after : list (option hist);                 (* mode 1: the caller's histograms after Commit *)
   c_comps : list comp                           (* mode 2 *)
@@ -95,6 +98,14 @@ Fixpoint replay (k : kind) (done : list chunk) (cur : chunk) (ops : list op) (ob
   | _, _ => None
   end.
 
+(* the model's prediction for re-encoding one chunk *)
+Definition reenc_code (k : kind) (ch : chunk) : Z :=
+  match reencode k ch with
+  | Ok (Some c') => if list_eqb th_eqb (read_chunk c') (read_chunk ch) then 1 else 2
+  | Ok None => 0
+  | _ => 3
+  end.
+
 Definition agree_comp (c : comp) : bool :=
   match c with
   | CIdxs sp out => list_eqb Z.eqb (idxs sp) out
@@ -128,9 +139,9 @@ Definition agree (c : case) : bool :=
       match replay (c_kind c) [] (empty_chunk false) (c_ops c) (c_steps c) with
       | Some cs =>
           (* a leading cut leaves an empty chunk in front: drop empty chunks *)
-          list_eqb (list_eqb th_eqb)
-                   (filter (fun l => nonempty l) (map read_chunk cs))
-                   (c_chunks c)
+          let cs' := filter (fun ch => nonempty (c_samples ch)) cs in
+          list_eqb (list_eqb th_eqb) (map read_chunk cs') (c_chunks c) &&
+          list_eqb Z.eqb (map (reenc_code (c_kind c)) cs') (c_reenc c)
       | None => false
       end
     end
@@ -196,6 +207,7 @@ Definition holds (c : case) : bool :=
     let k := c_kind c in
     if c_mode c =? 0 then
       read_matches k (concat (c_chunks c)) (c_ops c) &&
+      forallb (fun r => r =? 1) (c_reenc c) &&      (* "however the storage ... re-encoded chunks" *)
       all2 (fun o s => unchanged k (o_h o) (os_after s)) (c_ops c) (c_steps c)
     else
       forallb (fun rd => read_matches k rd (c_ops c)) (c_reads c) &&
